@@ -85,6 +85,17 @@ func (d *driver) runOtherFamily(fam, in string, sh *shards) bool {
 			d.runPolyCase(rr, k, &c)
 		})
 		return true
+	case "misc":
+		getConf()
+		rr := &roundRobin{sh: sh}
+		forEachLine(in, 1, func(shard, k int, line []byte) {
+			var c miscCase
+			if err := json.Unmarshal(line, &c); err != nil {
+				panic(err)
+			}
+			d.runMiscCase(rr, k, &c)
+		})
+		return true
 	case "sqrt":
 		rr := &roundRobin{sh: sh}
 		forEachLine(in, 1, func(shard, k int, line []byte) {
